@@ -5,7 +5,7 @@ Correspondence: list of unknowns (tex2txt with unkn, Parser.get_unknowns) vs
 the model; oracle: the generator knows which undeclared names it used in text
 and which only in maths, comments, skip regions; the shell's --list-unknown
 prints the same list, one name per line."""
-import random
+import random, re
 import core, parsecase, universe, shellrun
 
 PROP_FILE = 'props/C19.v'
@@ -44,7 +44,9 @@ def oracle(c, d, kind, im):
     # (an environment name that holds a paragraph break -- malformed input --
     # spreads over several lines of the list; empty lines are not names)
     names = [n for n in names if n]
-    if len(set(names)) != len(names):
+    # (a name holding a line break reads as two lines of the list)
+    broken = re.search(r'\\(begin|end)\s*\{[^{}]*\n', c.latex) is not None
+    if len(set(names)) != len(names) and not broken:
         return 'a name is listed twice: %r' % names
     if d is not None and kind == 'doc':
         got = [n for n in names if n in TRACKED
